@@ -17,6 +17,7 @@ namespace verif {
 struct GEdge {
     unsigned i, j;
     long long x;
+    bool remove = false; // `op r i j`: removeEdge(i, j) at this point of the construction (graphs with a removal history)
 };
 
 struct GSpec {
@@ -91,9 +92,15 @@ inline GSpec parseGSpec(const Case &c, bool directed) {
         for (auto &p : es)
             s.edges.push_back(p.second);
     }
-    for (const Op &op : c.ops)
+    for (const Op &op : c.ops) {
         if (op.kind == "e" && s.n > 0)
             s.edges.push_back(GEdge{(unsigned)(op.u(0) % s.n), (unsigned)(op.u(1) % s.n), op.i(2)});
+        if (op.kind == "r" && s.n > 0) {
+            GEdge r{(unsigned)(op.u(0) % s.n), (unsigned)(op.u(1) % s.n), 0};
+            r.remove = true;
+            s.edges.push_back(r);
+        }
+    }
     for (auto &e : s.edges) {
         e.i += (unsigned)s.padFront;
         e.j += (unsigned)s.padFront;
@@ -128,6 +135,14 @@ void buildGraph(const GSpec &s, const std::string &wmode, G &g, Model &m) {
         UPair k = m.key(e.i, e.j);
         bool present = m.e.count(k) != 0;
         long long x = e.x < 0 ? -e.x : e.x;
+        if (e.remove) {
+            if constexpr (T::fam == 'M')
+                g.removeMultiedge(e.i, e.j, 1000000u);
+            else
+                g.removeEdge(e.i, e.j);
+            m.e.erase(k);
+            continue;
+        }
         if constexpr (T::fam == 'L') {
             long long lab = T::nolabel ? 0 : x % LABEL_K;
             g.addEdge(e.i, e.j, LabelCodec<typename T::Label>::mk((int)lab));
